@@ -14,8 +14,14 @@ def private_copy(block):
     return b2
 
 
-def run_in(block, fn):
-    with pyrtl.set_working_block(block, no_sanity_check=True):
+def run_in(block, fn, foreign=False):
+    """run `fn` with `block` as the working block -- or, with `foreign`, with an unrelated scratch block as the
+    working block (a pass given `block=` explicitly must act on that block whatever the working block is)"""
+    wb = pyrtl.Block() if foreign else block
+    if foreign:
+        with pyrtl.set_working_block(wb, no_sanity_check=True):
+            pyrtl.Input(1, 'verif_foreign_in')
+    with pyrtl.set_working_block(wb, no_sanity_check=True):
         with contextlib.redirect_stdout(io.StringIO()):
             return fn()
 
